@@ -333,6 +333,8 @@ pub fn dyn_writer(c: &mut Cursor<Vec<u8>>) -> (r: &mut dyn DynWrite)
         r.written() == old(c).data(),
         final(c).data() == final(r).written(),
         old(c).pos() == old(c).data().len() ==> r.infallible(),
+        // a cursor that starts at its end and is written through an infallible view stays at its end (std Cursor<Vec<u8>>::write appends and advances)
+        old(c).pos() == old(c).data().len() ==> final(c).pos() == final(c).data().len(),
 { unimplemented!() }
 
 // ---------------------------------------------------------------------------------------------------------------------------------------
